@@ -1,7 +1,12 @@
 """C12 - space-filling samplers: correspondence with Model/Samplers.v (exact rationals, regime R3)
 and a direct oracle on the implementation's output.
 
-The four Generator classes of artap.operators are driven through their public generate():
+The four Generator classes of artap.operators are driven through their public generate(), in
+HISTORIES: one shared parameter list (the list of dicts a Problem holds), one long-lived generator
+object per class re-initialised with changing numbers, the four classes interleaved and repeated,
+with generators of other designs (Box-Behnken, Plackett-Burman, full factorial) called in between.
+Every run is compared with the model evaluated on the ORIGINAL declared bounds, and the parameter
+dicts are compared with their snapshot after every generate().
 
   LHSGenerator      numpy.random.RandomState is replaced (harness side, for the duration of the call)
                     by a recording wrapper around a seeded RandomState; the kind-tagged tape of calls
@@ -17,7 +22,7 @@ was given (bounds, draws); each output float is compared with the model's ration
 tolerance TOL_ULPS * ulp(M), M = max(|lb|, |ub|, |ub - lb|) of that parameter (see `tol_of`).
 The direct oracle evaluates the clauses of the property on the implementation's output alone.
 """
-import itertools
+import copy
 import json
 import math
 import os
@@ -28,7 +33,7 @@ from harness.core import nl, ll, pl, VERIF
 
 PROP = "C12"
 THEOREMS = {"Artap.Props.C12": [
-    "C12_lhs_stratified", "C12_lhs_in_stratum", "C12_halton_radical_inverse", "C12_primes_correct",
+    "C12_lhs_stratified", "C12_lhs_sample_in_stratum", "C12_halton_radical_inverse", "C12_primes_correct",
     "C12_grid_complete", "C12_grid_first_last", "C12_random_count_in_box", "C12_random_total", "C12_dimension_ok"]}
 AXIOMS_OK = []
 TRUSTED = [
@@ -36,8 +41,8 @@ TRUSTED = [
     "against the definition of primality by kernel computation for every parameter count <= 300)",
     "hand-written model Model/Samplers.v tied to doe.py / operators.py / utils.py by this correspondence run",
     "regime R3: the model is exact rational arithmetic; the implementation's binary64 results are compared with it under "
-    "a tolerance of 16 ulp of the largest magnitude of the parameter (rigorous first-order bound of the accumulated "
-    "rounding of np.linspace, the affine maps and the van der Corput sums; measured maximum reported in the evidence)",
+    "a tolerance of 16 ulp of the largest magnitude of the parameter (a rigorous first-order bound of the accumulated "
+    "rounding of np.linspace, the affine maps and the van der Corput sums is 11 ulp; the measured maximum is in the evidence)",
     "numpy.random.RandomState.rand / permutation and random.random are oracle tapes recorded from the run "
     "(the theorems hold for every tape of draws in [0,1) and every family of permutations)",
     "int(n ** 0.5) in the prime sieve is modelled by the integer square root (equal for the sieve limits 10 + 1000 t the code uses)",
@@ -53,7 +58,6 @@ HEADER = ("From Artap Require Import Run.C12Run.\nFrom Coq Require Import List Z
           "Import ListNotations.\nOpen Scope list_scope.\n")
 
 TOL_ULPS = 16
-ABS_FLOOR = Fraction(1, 2 ** 1060)        # covers subnormal intermediate results
 
 
 def Q(x):
@@ -61,8 +65,21 @@ def Q(x):
 
 
 def q_lit(f):
+    """exact rational -> Coq term; dyadic rationals (every float) as fq m e = m * 2^e (decimal literals with
+    hundreds of digits are very slow to parse)."""
     f = Fraction(f)
-    return "(%d # %d)%%Q" % (f.numerator, f.denominator)
+    d = f.denominator
+    if d & (d - 1) == 0:
+        m, e = f.numerator, -(d.bit_length() - 1)
+        if m != 0:
+            tz = (m & -m).bit_length() - 1
+            if e == 0 and tz > 0:
+                m >>= tz
+                e = tz
+        else:
+            e = 0
+        return "(fq %s %s)" % (("(%d)" % m) if m < 0 else str(m), ("(%d)" % e) if e < 0 else str(e))
+    return "(%d # %d)%%Q" % (f.numerator, d)
 
 
 def mag_of(lo, hi):
@@ -70,18 +87,12 @@ def mag_of(lo, hi):
     return max(abs(lo), abs(hi), abs(hi - lo))
 
 
+def ulp_of(lo, hi):
+    return Fraction(math.ulp(float(mag_of(lo, hi))))
+
+
 def tol_of(lo, hi):
-    m = mag_of(lo, hi)
-    if m == 0:
-        return ABS_FLOOR
-    return Fraction(TOL_ULPS * math.ulp(float(m))) + ABS_FLOOR
-
-
-def ulps(err, lo, hi):
-    m = mag_of(lo, hi)
-    if m == 0:
-        return 0.0
-    return float(err / Fraction(math.ulp(float(m))))
+    return TOL_ULPS * ulp_of(lo, hi)
 
 
 # ---------------------------------------------------------------------------------------------
@@ -89,10 +100,11 @@ def ulps(err, lo, hi):
 # ---------------------------------------------------------------------------------------------
 LOS = [0.0, 0.0, 1.0, -1.0, -5.0, -10.0, 0.5, 2.5, 3.0, 100.0, -2.5, 0.1, -0.30000000000000004, 7.25]
 WIDTHS = [1.0, 1.0, 2.0, 0.5, 2.4, 7.5, 10.0, 1e-3, 1e3, 0.1, 3.0, 20.0]
+INTS = [(-5, 5), (0, 1), (-3, -1), (0, 10), (1, 4), (-100, 100)]
 
 
-def gen_bound(rng, degenerate=0.0):
-    """One (lb, ub) pair; the kind is returned for the distribution record."""
+def gen_bound(rng, degenerate=0.0, extreme=False):
+    """One (lb, ub) pair and its kind (for the distribution record)."""
     r = rng.random()
     if r < degenerate / 2:
         a = rng.choice(LOS)
@@ -105,42 +117,24 @@ def gen_bound(rng, degenerate=0.0):
         a = rng.choice(LOS)
         return (a, a + rng.choice(WIDTHS)), "grid"
     if r < 0.55:
-        a, w = rng.choice([(-5, 5), (0, 1), (-3, -1), (0, 10), (1, 4), (-100, 100)]), None
+        a = rng.choice(INTS)
         return (a[0], a[1]), "int"
     if r < 0.70:
         hi = -rng.choice([0.25, 1.0, 3.5, 1e3, 1e-3])
         return (hi - rng.choice(WIDTHS), hi), "negative"
     if r < 0.80:
-        s = rng.choice([1e-300, 1e-200, 3e-150, 1e-30])
+        s = rng.choice([1e-300, 1e-200, 3e-150] if extreme else [1e-30, 1e-9, 3e-15])
         a = rng.choice([0.0, 1.0, -1.0, -2.5, 0.5]) * s
         return (a, a + rng.choice([1.0, 2.0, 0.5, 7.5]) * s), "tiny"
     if r < 0.90:
-        s = rng.choice([1e300, 1e200, 3e150, 1e30, 1e18])
+        s = rng.choice([1e300, 1e200, 3e150] if extreme else [1e30, 1e18, 3e9])
         a = rng.choice([0.0, 1.0, -1.0, -2.5, 0.5]) * s
         return (a, a + rng.choice([1.0, 2.0, 0.5, 0.75]) * s), "huge"
     a = rng.uniform(-10, 10)
     return (a, a + rng.uniform(0.01, 10)), "random"
 
 
-def gen_bounds(rng, n, degenerate=0.0):
-    out, kinds = [], []
-    for _ in range(n):
-        b, k = gen_bound(rng, degenerate)
-        out.append(b)
-        kinds.append(k)
-    return out, kinds
-
-
-def params_of(bounds, precisions=None):
-    ps = []
-    for i, b in enumerate(bounds):
-        p = {"name": "x_%d" % i, "bounds": [b[0], b[1]], "initial_value": b[0]}
-        if precisions is not None and precisions[i] is not None:
-            p["precision"] = precisions[i]
-        ps.append(p)
-    return ps
-
-
+PRECS = [None, None, None, None, 0, 0.5, 0.25, 0.1, 1e-3, 1e-6, 1.0, 2.0, 0.3]
 SPECIAL_U = [0.0, 1.0 - 2.0 ** -53, 0.5, 2.0 ** -53, 0.25, 0.75, 0.125, 1.0 - 2.0 ** -20]
 
 
@@ -150,7 +144,7 @@ SPECIAL_U = [0.0, 1.0 - 2.0 ** -53, 0.5, 2.0 ** -53, 0.25, 0.75, 0.125, 1.0 - 2.
 def first_primes(n):
     out, c = [], 2
     while len(out) < n:
-        if all(c % d for d in range(2, int(math.isqrt(c)) + 1)):
+        if all(c % d for d in range(2, math.isqrt(c) + 1)):
             out.append(c)
         c += 1
     return out
@@ -170,41 +164,53 @@ def run(ctx):
     import numpy as np
     import artap.operators as ops
     import artap.utils as autils
-    import artap.doe as adoe
 
     rng = ctx.rng
     REAL_RS = np.random.RandomState
     REAL_RANDOM = autils.random
+    CAUGHT = (IndexError, ValueError, ZeroDivisionError, TypeError, OverflowError, KeyError, AttributeError)
 
     cases, expected, meta = [], [], []
     stats = {"lhs": 0, "halton": 0, "grid": 0, "random": 0, "raises": 0}
-    bound_kinds = {}
-    hist_N = {}
-    hist_n = {}
-    near = {"lhs_columns_skipped_by_oracle": 0, "lhs_columns_checked": 0,
-            "random_entries_near_rounding_boundary": 0, "random_entries": 0,
-            "random_exact_ties_compared": 0}
+    hist_stats = {"histories": 0, "steps": 0, "interleaved_other_generators": 0, "repeated_generator_objects": 0,
+                  "parameter_mutations": 0, "followup_steps_after_mutation": 0}
+    bound_kinds, hist_N, hist_n, reprs = {}, {}, {}, {}
+    near = {"lhs_columns_with_near_boundary_samples": 0, "lhs_columns_checked": 0,
+            "random_entries": 0, "random_entries_near_rounding_boundary": 0,
+            "random_entries_precision_below_float_resolution": 0, "random_exact_ties_compared": 0}
     err_stats = {"max_err_ulps": 0.0, "entries_compared": 0, "entries_over_4ulp": 0}
     tape_len = {"rand_entries": 0, "permutations": 0, "random_draws": 0}
-
-    def note_bounds(kinds, N, n):
-        for k in kinds:
-            bound_kinds[k] = bound_kinds.get(k, 0) + 1
-        hist_N[N] = hist_N.get(N, 0) + 1
-        hist_n[n] = hist_n.get(n, 0) + 1
 
     def fail(what, inp, match):
         ctx.oracle_failures.append({"what": what, "input": inp, "match": match})
 
+    class NonFinite(ValueError):
+        pass
+
     def to_rows(res):
-        return [[float(x) for x in row] for row in res]
+        rows = [[float(x) for x in row] for row in res]
+        if any(not math.isfinite(x) for r in rows for x in r):
+            raise NonFinite("non-finite coordinate")      # reported like an exception of the call
+        return rows
 
     def obs_lit(rows, tols):
-        """rows: floats; tols[i][j]: Fraction"""
         return "(Some %s)" % ll([ll([pl(q_lit(Q(x)), q_lit(t)) for x, t in zip(r, tr)]) for r, tr in zip(rows, tols)])
+
+    def plain_tols(rows, bounds):
+        n = len(bounds)
+        return [[tol_of(*bounds[j]) if j < n else Fraction(0) for j in range(len(r))] for r in rows]
 
     def bs_lit(bounds):
         return ll([pl(q_lit(Q(a)), q_lit(Q(b))) for a, b in bounds])
+
+    def observe_err(x, exact_value, lo, hi):
+        """informational: rounding error of one output float against its exact value, in ulp(M)"""
+        e = float(abs(Q(x) - exact_value) / ulp_of(lo, hi))
+        err_stats["entries_compared"] += 1
+        if e > err_stats["max_err_ulps"]:
+            err_stats["max_err_ulps"] = e
+        if e > 4:
+            err_stats["entries_over_4ulp"] += 1
 
     def shape_ok(kind, rows, N_expected, n, inp):
         ok = True
@@ -219,22 +225,20 @@ def run(ctx):
             ok = False
         return ok
 
-    def observe_err(x, exact_value, lo, hi):
-        """informational: the rounding error of one output float against its exact value, in ulp(M)"""
-        e = ulps(abs(Q(x) - exact_value), lo, hi)
-        err_stats["entries_compared"] += 1
-        if e > err_stats["max_err_ulps"]:
-            err_stats["max_err_ulps"] = e
-        if e > 4:
-            err_stats["entries_over_4ulp"] += 1
+    def emit(kind, case, exp, m, N, n, key, nontrivial):
+        cases.append(case)
+        expected.append(exp)
+        meta.append(m)
+        stats[kind] += 1
+        hist_N[N] = hist_N.get(N, 0) + 1
+        hist_n[n] = hist_n.get(n, 0) + 1
+        ctx.count(key, nontrivial=nontrivial)
 
     # -------------------------------------------------------------------------------------
-    # Latin hypercube
+    # Latin hypercube.  `gen` is the (possibly long-lived) LHSGenerator, `bounds` the ORIGINAL declared bounds
     # -------------------------------------------------------------------------------------
-    def lhs_case(N, bounds, seed, inject=None, kinds=()):
-        """inject: dict (i, j) -> u value forced into the rand matrix (a legal RandomState output)."""
+    def lhs_step(gen, N, bounds, seed, inject, hinfo):
         tape = []
-        inject = inject or {}
 
         class Recorder:
             def __init__(self, *a, **k):
@@ -246,7 +250,9 @@ def run(ctx):
                     for (i, j), v in inject.items():
                         if i < m.shape[0] and j < m.shape[1]:
                             m[i, j] = v
-                tape.append(("rand", [[float(x) for x in row] for row in np.atleast_2d(m)] if m.ndim == 2 else None))
+                    tape.append(("rand", [[float(x) for x in row] for row in m]))
+                else:
+                    tape.append(("other", "rand%r" % (shape,)))
                 return m
 
             def permutation(self, x):
@@ -262,63 +268,55 @@ def run(ctx):
                 return getattr(self._rs, name)
 
         n = len(bounds)
-        g = ops.LHSGenerator(params_of(bounds))
-        g.init(N)
+        gen.init(N)
         np.random.RandomState = Recorder
         try:
             try:
-                res = g.generate()
-                rows = to_rows(res)
-                exc = None
-            except (IndexError, ValueError, ZeroDivisionError, TypeError) as e:
+                rows, exc = to_rows(gen.generate()), None
+            except CAUGHT as e:
                 rows, exc = None, type(e).__name__
         finally:
             np.random.RandomState = REAL_RS
 
         ev = []
         for kind, val in tape:
-            if kind == "rand" and val is not None:
+            if kind == "rand":
                 ev.append("ERand %s" % ll([ll([q_lit(Q(x)) for x in row]) for row in val]))
                 tape_len["rand_entries"] += sum(len(r) for r in val)
             elif kind == "perm":
                 ev.append("EPerm %s" % ll([nl(v) for v in val]))
                 tape_len["permutations"] += 1
             else:
-                ev.append("ERand []")        # a call the model does not know: breaks the pattern, fails closed
-        case = "CLhs %s %s %s" % (nl(N), bs_lit(bounds), ll(ev))
-        m = {"generator": "lhs", "N": N, "bounds": [list(b) for b in bounds], "seed": seed,
-             "inject": {"%d,%d" % k: v for k, v in inject.items()},
-             "tape_kinds": [k for k, _ in tape], "raises": exc}
+                ev.append("ERand []")        # a call the model does not know: breaks the pattern, the model fails closed
+        m = dict(hinfo, generator="lhs", N=N, bounds=[list(b) for b in bounds], seed=seed,
+                 inject={"%d,%d" % k: v for k, v in inject.items()}, tape_kinds=[k for k, _ in tape], raises=exc)
         if rows is None:
             exp = "None"
             stats["raises"] += 1
         else:
-            tols = [[tol_of(*bounds[j]) if j < n else ABS_FLOOR for j in range(len(r))] for r in rows]
-            exp = obs_lit(rows, tols)
+            exp = obs_lit(rows, plain_tols(rows, bounds))
             m["output_head"] = rows[:3]
-        cases.append(case)
-        expected.append(exp)
-        meta.append(m)
-        stats["lhs"] += 1
-        note_bounds(kinds, N, n)
-        ctx.count(("lhs", N, tuple(map(tuple, bounds)), seed, tuple(sorted(inject.items()))), nontrivial=(N >= 2 and n >= 1))
-        if N >= 3 and n >= 2:
+        emit("lhs", "CLhs %s %s %s" % (nl(N), bs_lit(bounds), ll(ev)), exp, m, N, n,
+             ("lhs", N, tuple(map(tuple, bounds)), seed, tuple(sorted(inject.items()))), N >= 2 and n >= 1)
+        if N >= 3 and n >= 2 and rows is not None:
             ctx.sample({k: m[k] for k in ("generator", "N", "bounds", "seed", "output_head")})
-        if rows is not None and [k for k, _ in tape] == ["rand"] + ["perm"] * n and N >= 1 and len(rows) == N:
+        if rows is not None and [k for k, _ in tape] == ["rand"] + ["perm"] * n and N >= 1 and len(rows) == N \
+                and all(len(r) == n for r in rows) and len(tape[0][1]) == N:
             um = tape[0][1]
             for j, (lo, hi) in enumerate(bounds):
                 perm = tape[1 + j][1]
+                if len(perm) != N or sorted(perm) != list(range(N)):
+                    continue
                 for i in range(N):
-                    if len(rows[i]) == n and len(perm) == N and len(um) == N:
-                        r_ = perm[i]
-                        observe_err(rows[i][j], Q(lo) + (Q(um[r_][j]) / N + Fraction(r_, N)) * abs(Q(hi) - Q(lo)), lo, hi)
+                    r_ = perm[i]
+                    observe_err(rows[i][j], Q(lo) + (Q(um[r_][j]) / N + Fraction(r_, N)) * abs(Q(hi) - Q(lo)), lo, hi)
         # ---- direct oracle: exactly one sample in each of the N equal-width strata of every parameter
+        inp = dict(hinfo, generator="LHSGenerator", N=N, bounds=[list(b) for b in bounds], random_state_seed=seed,
+                   forced_draws=m["inject"])
         if rows is None:
             if N >= 1 and n >= 1:
-                fail("LHS generator raised %s for N=%d, %d parameters" % (exc, N, n), m, {"kind": "lhs_raises", "exc": exc})
+                fail("LHS generator raised %s for N=%d, %d parameters" % (exc, N, n), inp, {"kind": "lhs_raises", "exc": exc})
             return
-        inp = {"generator": "LHSGenerator", "N": N, "bounds": [list(b) for b in bounds], "random_state_seed": seed,
-               "forced_draws": m["inject"]}
         if not shape_ok("lhs", rows, N, n, inp) or N < 1:
             return
         for j, (lo, hi) in enumerate(bounds):
@@ -326,63 +324,79 @@ def run(ctx):
             if not lo < hi:
                 continue
             w = hi - lo
-            slack = tol_of(lo, hi) * N / w           # tolerance in units of one stratum
-            occupied, ambiguous = {}, False
+            slack = tol_of(lo, hi) * N / w           # the float tolerance in units of one stratum
+            cand, ambiguous, broken = [], False, False
             for i in range(N):
                 y = (Q(rows[i][j]) - lo) * N / w      # position in stratum units, exact
                 s = math.floor(y)
-                if y - s <= slack or (s + 1) - y <= slack:
-                    ambiguous = True                  # within the float tolerance of a stratum boundary
-                    continue
-                if s < 0 or s >= N:
+                c = [s]
+                if y - s <= slack:                    # within the float tolerance of a stratum boundary: either side
+                    c = [s - 1, s]
+                elif (s + 1) - y <= slack:
+                    c = [s, s + 1]
+                if len(c) == 2:
+                    ambiguous = True
+                c = [t for t in c if 0 <= t < N]
+                if not c:
                     fail("LHS sample %d of parameter %d (%r) lies outside [lb, ub) = [%r, %r)" % (i, j, rows[i][j], bounds[j][0], bounds[j][1]),
                          dict(inp, column=j, sample=i, value=rows[i][j]), {"kind": "lhs_out_of_range", "column": j})
+                    broken = True
                     break
-                if s in occupied:
-                    fail("LHS design puts samples %d and %d of parameter %d into the same stratum %d of %d (values %r, %r)"
-                         % (occupied[s], i, j, s, N, rows[occupied[s]][j], rows[i][j]),
-                         dict(inp, column=j, stratum=s, samples=[occupied[s], i], values=[rows[occupied[s]][j], rows[i][j]]),
+                cand.append(c)
+            if broken:
+                break
+            # one sample per stratum <=> the samples can be matched one-to-one with the N strata (samples away from
+            # a boundary have a single candidate stratum); augmenting-path matching
+            owner = {}
+
+            def place(i, seen):
+                for t in cand[i]:
+                    if t in seen:
+                        continue
+                    seen.add(t)
+                    if t not in owner or place(owner[t], seen):
+                        owner[t] = i
+                        return True
+                return False
+
+            for i in sorted(range(N), key=lambda i: len(cand[i])):
+                if not place(i, set()):
+                    clash = [k for k in range(N) if k != i and set(cand[k]) & set(cand[i])]
+                    fail("LHS design: parameter %d has no one-sample-per-stratum arrangement: sample %d (%r, stratum %r of %d) "
+                         "shares its stratum with sample(s) %r" % (j, i, rows[i][j], cand[i], N, clash[:3]),
+                         dict(inp, column=j, stratum=cand[i], samples=[i] + clash[:3],
+                              values=[rows[i][j]] + [rows[k][j] for k in clash[:3]]),
                          {"kind": "lhs_stratum_twice", "column": j})
+                    broken = True
                     break
-                occupied[s] = i
-            if ambiguous:
-                near["lhs_columns_skipped_by_oracle"] += 1
-            else:
-                near["lhs_columns_checked"] += 1
+            if broken:
+                break
+            near["lhs_columns_with_near_boundary_samples" if ambiguous else "lhs_columns_checked"] += 1
 
     # -------------------------------------------------------------------------------------
-    # Halton
-    # -------------------------------------------------------------------------------------
-    def halton_case(N, bounds, kinds=()):
+    def halton_step(gen, N, bounds, hinfo):
         n = len(bounds)
-        g = ops.HaltonGenerator(params_of(bounds))
-        g.init(N)
+        gen.init(N)
         try:
-            rows = to_rows(g.generate())
-            exc = None
-        except (IndexError, ValueError, ZeroDivisionError, TypeError) as e:
+            rows, exc = to_rows(gen.generate()), None
+        except CAUGHT as e:
             rows, exc = None, type(e).__name__
-        m = {"generator": "halton", "N": N, "bounds": [list(b) for b in bounds], "raises": exc}
+        m = dict(hinfo, generator="halton", N=N, bounds=[list(b) for b in bounds], raises=exc)
         if rows is None:
             exp = "None"
             stats["raises"] += 1
         else:
-            tols = [[tol_of(*bounds[j]) if j < n else ABS_FLOOR for j in range(len(r))] for r in rows]
-            exp = obs_lit(rows, tols)
+            exp = obs_lit(rows, plain_tols(rows, bounds))
             m["output_head"] = rows[:3]
-        cases.append("CHalton %s %s" % (nl(N), bs_lit(bounds)))
-        expected.append(exp)
-        meta.append(m)
-        stats["halton"] += 1
-        note_bounds(kinds, N, n)
-        ctx.count(("halton", N, tuple(map(tuple, bounds))), nontrivial=(N >= 1 and n >= 1))
-        if N >= 3 and n >= 3:
+        emit("halton", "CHalton %s %s" % (nl(N), bs_lit(bounds)), exp, m, N, n,
+             ("halton", N, tuple(map(tuple, bounds))), N >= 1 and n >= 1)
+        if N >= 3 and n >= 3 and rows is not None:
             ctx.sample({k: m[k] for k in ("generator", "N", "bounds", "output_head")})
+        inp = dict(hinfo, generator="HaltonGenerator", N=N, bounds=[list(b) for b in bounds])
         if rows is None:
             if n >= 1:
-                fail("Halton generator raised %s for N=%d, %d parameters" % (exc, N, n), m, {"kind": "halton_raises", "exc": exc})
+                fail("Halton generator raised %s for N=%d, %d parameters" % (exc, N, n), inp, {"kind": "halton_raises", "exc": exc})
             return
-        inp = {"generator": "HaltonGenerator", "N": N, "bounds": [list(b) for b in bounds]}
         if not shape_ok("halton", rows, N, n, inp):
             return
         primes = first_primes(n)
@@ -393,50 +407,39 @@ def run(ctx):
             t = tol_of(lo, hi)
             for i in range(1, N + 1):
                 want = lo + radical_inverse(i, primes[j]) * (hi - lo)
-                got = Q(rows[i - 1][j])
-                e = abs(got - want)
                 observe_err(rows[i - 1][j], want, lo, hi)
-                if e > t:
+                if abs(Q(rows[i - 1][j]) - want) > t:
                     fail("Halton point %d, parameter %d: %r, required lb + phi_%d(%d) (ub - lb) = %r"
                          % (i, j, rows[i - 1][j], primes[j], i, float(want)),
                          dict(inp, point=i, column=j, base=primes[j], value=rows[i - 1][j], required=float(want)),
                          {"kind": "halton_value", "column": j})
-                    break
+                    return
 
     # -------------------------------------------------------------------------------------
-    # uniform grid
-    # -------------------------------------------------------------------------------------
-    def grid_case(k, bounds, kinds=()):
+    def grid_step(gen, k, bounds, hinfo):
         n = len(bounds)
-        g = ops.UniformGenerator(params_of(bounds))
-        g.init(k)
+        gen.init(k)
         try:
-            rows = to_rows(g.generate())
-            exc = None
-        except (IndexError, ValueError, ZeroDivisionError, TypeError) as e:
+            rows, exc = to_rows(gen.generate()), None
+        except CAUGHT as e:
             rows, exc = None, type(e).__name__
-        m = {"generator": "grid", "k": k, "bounds": [list(b) for b in bounds], "raises": exc}
+        m = dict(hinfo, generator="grid", k=k, bounds=[list(b) for b in bounds], raises=exc)
         if rows is None:
             exp = "None"
             stats["raises"] += 1
         else:
-            tols = [[tol_of(*bounds[j]) if j < n else ABS_FLOOR for j in range(len(r))] for r in rows]
-            exp = obs_lit(rows, tols)
+            exp = obs_lit(rows, plain_tols(rows, bounds))
             m["output_head"] = rows[:3]
-        cases.append("CGrid %s %s" % (nl(k), bs_lit(bounds)))
-        expected.append(exp)
-        meta.append(m)
-        stats["grid"] += 1
-        note_bounds(kinds, k, n)
-        ctx.count(("grid", k, tuple(map(tuple, bounds))), nontrivial=(k >= 2 and n >= 1))
-        if k >= 3 and n == 2:
+        emit("grid", "CGrid %s %s" % (nl(k), bs_lit(bounds)), exp, m, k, n,
+             ("grid", k, tuple(map(tuple, bounds))), k >= 2 and n >= 1)
+        if k >= 3 and n == 2 and rows is not None:
             ctx.sample({kk: m[kk] for kk in ("generator", "k", "bounds", "output_head")})
         if k < 2:
             return
+        inp = dict(hinfo, generator="UniformGenerator", k=k, bounds=[list(b) for b in bounds])
         if rows is None:
-            fail("uniform generator raised %s for k=%d, %d parameters" % (exc, k, n), m, {"kind": "grid_raises", "exc": exc})
+            fail("uniform generator raised %s for k=%d, %d parameters" % (exc, k, n), inp, {"kind": "grid_raises", "exc": exc})
             return
-        inp = {"generator": "UniformGenerator", "k": k, "bounds": [list(b) for b in bounds]}
         if not shape_ok("grid", rows, k ** n, n, inp):
             return
         if not all(Q(lo) < Q(hi) for lo, hi in bounds):
@@ -447,8 +450,7 @@ def run(ctx):
             for j, (lo, hi) in enumerate(bounds):
                 lo, hi = Q(lo), Q(hi)
                 x = Q(row[j])
-                lvl = round((x - lo) * (k - 1) / (hi - lo))
-                lvl = min(max(lvl, 0), k - 1)
+                lvl = min(max(round((x - lo) * (k - 1) / (hi - lo)), 0), k - 1)
                 want = lo + lvl * (hi - lo) / (k - 1)
                 observe_err(row[j], want, lo, hi)
                 if abs(x - want) > tol_of(lo, hi):
@@ -464,10 +466,8 @@ def run(ctx):
                      dict(inp, rows=[seen[idx], r_i], levels=list(idx)), {"kind": "grid_duplicate"})
                 return
             seen[idx] = r_i
-        # k^n rows, pairwise different combinations of level indices in 0..k-1  =>  every combination exactly once
+        # k^n rows with pairwise different combinations of level indices in 0..k-1 = every combination exactly once
 
-    # -------------------------------------------------------------------------------------
-    # random generator
     # -------------------------------------------------------------------------------------
     def simple(x):
         f = Q(x)
@@ -477,9 +477,8 @@ def run(ctx):
         f = Q(x)
         return f > 0 and f.numerator & (f.numerator - 1) == 0 and f.denominator & (f.denominator - 1) == 0
 
-    def random_case(N, bounds, precisions, seed, inject=None, kinds=()):
+    def random_step(gen, N, bounds, precisions, seed, inject, hinfo):
         n = len(bounds)
-        inject = inject or {}
         tape = []
         src = pyrandom.Random(seed)
 
@@ -490,22 +489,19 @@ def run(ctx):
             tape.append(v)
             return v
 
-        g = ops.RandomGenerator(params_of(bounds, precisions))
-        g.init(N)
+        gen.init(N)
         autils.random = rec_random
         try:
             try:
-                res = g.generate()
-                rows = to_rows(res)
-                exc = None
-            except (IndexError, ValueError, ZeroDivisionError, TypeError, OverflowError) as e:
+                rows, exc = to_rows(gen.generate()), None
+            except CAUGHT as e:
                 rows, exc = None, type(e).__name__
         finally:
             autils.random = REAL_RANDOM
         tape_len["random_draws"] += len(tape)
         precs = [0 if p is None else p for p in precisions]
-        m = {"generator": "random", "N": N, "bounds": [list(b) for b in bounds], "precisions": precisions, "seed": seed,
-             "inject": {str(k): v for k, v in inject.items()}, "draws": len(tape), "raises": exc}
+        m = dict(hinfo, generator="random", N=N, bounds=[list(b) for b in bounds], precisions=precisions, seed=seed,
+                 inject={str(k): v for k, v in inject.items()}, draws=len(tape), raises=exc)
         if rows is None:
             exp = "None"
             stats["raises"] += 1
@@ -515,42 +511,41 @@ def run(ctx):
                 tr = []
                 for j in range(len(r)):
                     if j >= n:
-                        tr.append(ABS_FLOOR)
+                        tr.append(Fraction(0))
                         continue
                     lo, hi = Q(bounds[j][0]), Q(bounds[j][1])
                     t = tol_of(lo, hi)
                     p = Q(precs[j]) if Q(precs[j]) != 0 else Q(1e-12)
                     near["random_entries"] += 1
                     pos = r_i * n + j
-                    if p > t / 2 and pos < len(tape):
-                        # the rounding round(number / precision) is a discrete outcome: if the exact quotient is
-                        # within the float tolerance of a half-integer the two roundings may legitimately differ by
-                        # one unit of precision -> the entry is compared with tolerance widened by one unit (counted)
+                    if pos < len(tape) and p > 0:
+                        # round(number / precision) is a discrete outcome.  The float quotient is within
+                        # 4.5 ulp(M) / precision of the exact one (number: 3 roundings, the division: 1), so when the
+                        # exact quotient is that close to a half-integer both roundings are legitimate and the entry is
+                        # compared with the tolerance widened by one unit of precision
                         u = Q(tape[pos])
                         q = (u * (hi - lo) + lo) / p
                         d = abs((q - math.floor(q)) - Fraction(1, 2))
-                        exact_float_path = (d == 0 and simple(u) and simple(lo) and simple(hi) and pow2(p))
-                        if exact_float_path:
-                            near["random_exact_ties_compared"] += 1
-                        elif d <= t / p:
-                            near["random_entries_near_rounding_boundary"] += 1
-                            t = t + abs(p)
+                        if d == 0 and simple(u) and simple(lo) and simple(hi) and pow2(p):
+                            near["random_exact_ties_compared"] += 1      # every float operation is exact: compared strictly
+                        elif d <= 5 * ulp_of(lo, hi) / p:
+                            if p <= t:
+                                near["random_entries_precision_below_float_resolution"] += 1
+                            else:
+                                near["random_entries_near_rounding_boundary"] += 1
+                            t = t + p
                     tr.append(t)
                 tols.append(tr)
             exp = obs_lit(rows, tols)
             m["output_head"] = rows[:3]
-        cases.append("CRandom %s %s %s" % (
+        emit("random", "CRandom %s %s %s" % (
             nl(N), ll([pl(q_lit(Q(b[0])), q_lit(Q(b[1])), q_lit(Q(pr))) for b, pr in zip(bounds, precs)]),
-            ll([q_lit(Q(u)) for u in tape])))
-        expected.append(exp)
-        meta.append(m)
-        stats["random"] += 1
-        note_bounds(kinds, N, n)
-        ctx.count(("random", N, tuple(map(tuple, bounds)), tuple(precs), seed, tuple(sorted(inject.items()))), nontrivial=(N >= 1 and n >= 1))
-        if N >= 2 and n >= 2:
+            ll([q_lit(Q(u)) for u in tape])), exp, m, N, n,
+            ("random", N, tuple(map(tuple, bounds)), tuple(precs), seed, tuple(sorted(inject.items()))), N >= 1 and n >= 1)
+        if N >= 2 and n >= 2 and rows is not None:
             ctx.sample({k: m[k] for k in ("generator", "N", "bounds", "precisions", "seed", "output_head")})
-        inp = {"generator": "RandomGenerator", "N": N, "bounds": [list(b) for b in bounds], "precisions": precisions,
-               "random_seed": seed, "forced_draws": m["inject"]}
+        inp = dict(hinfo, generator="RandomGenerator", N=N, bounds=[list(b) for b in bounds], precisions=precisions,
+                   random_seed=seed, forced_draws=m["inject"])
         if rows is None:
             fail("random generator raised %s for N=%d, %d parameters" % (exc, N, n), inp, {"kind": "random_raises", "exc": exc})
             return
@@ -570,131 +565,196 @@ def run(ctx):
                     return
 
     # -------------------------------------------------------------------------------------
-    # corpus first
+    # histories
     # -------------------------------------------------------------------------------------
+    def semantic(params):
+        """what a declared parameter list means to the samplers: name, bounds (numeric values), precision"""
+        out = []
+        for p in params:
+            try:
+                b = [Q(x) for x in p["bounds"]]
+            except Exception:
+                b = repr(p.get("bounds"))
+            out.append((p.get("name"), b, p.get("precision")))
+        return out
+
+    def run_history(h, hid):
+        """h: {"bounds": [[lb, ub], ...], "precisions": [...], "repr": "float"|"numpy"|"tuple", "steps": [...]}"""
+        bounds0 = [(b[0], b[1]) for b in h["bounds"]]          # ORIGINAL declared bounds: what the model gets
+        precisions = h.get("precisions") or [None] * len(bounds0)
+        rp = h.get("repr", "float")
+        reprs[rp] = reprs.get(rp, 0) + 1
+        params = []
+        for i, b in enumerate(bounds0):
+            if rp == "numpy":
+                bb = [np.float64(b[0]), np.float64(b[1])]
+            elif rp == "tuple":
+                bb = (b[0], b[1])
+            else:
+                bb = [b[0], b[1]]
+            p = {"name": "x_%d" % i, "bounds": bb, "initial_value": b[0]}
+            if precisions[i] is not None:
+                p["precision"] = precisions[i]
+            params.append(p)
+        snapshot = semantic(copy.deepcopy(params))
+        n = len(bounds0)
+        gens = {}                                               # long-lived generator objects sharing `params`
+        hist_stats["histories"] += 1
+        mutated_reported = False
+        steps = list(h["steps"])
+        si = 0
+        while si < len(steps):
+            st = steps[si]
+            si += 1
+            g = st["generator"]
+            hinfo = {"history": hid, "step": si - 1, "history_so_far": [s["generator"] for s in steps[:si - 1]]}
+            hist_stats["steps"] += 1
+            if g in ("lhs", "halton", "grid", "random"):
+                if st.get("fresh") or g not in gens:
+                    gens[g] = {"lhs": ops.LHSGenerator, "halton": ops.HaltonGenerator, "grid": ops.UniformGenerator,
+                               "random": ops.RandomGenerator}[g](params)
+                else:
+                    hist_stats["repeated_generator_objects"] += 1
+            if g == "lhs":
+                inj = {tuple(int(t) for t in k.split(",")): v for k, v in st.get("inject", {}).items()}
+                lhs_step(gens[g], st["N"], bounds0, st.get("seed", 0), inj, hinfo)
+            elif g == "halton":
+                halton_step(gens[g], st["N"], bounds0, hinfo)
+            elif g == "grid":
+                grid_step(gens[g], st["k"], bounds0, hinfo)
+            elif g == "random":
+                inj = {int(k): v for k, v in st.get("inject", {}).items()}
+                random_step(gens[g], st["N"], bounds0, precisions, st.get("seed", 0), inj, hinfo)
+            else:
+                hist_stats["interleaved_other_generators"] += 1
+                try:
+                    if g == "boxbehnken":
+                        ops.BoxBehnkenGenerator(params).generate()
+                    elif g == "plackettburman":
+                        ops.PlackettBurmanGenerator(params).generate()
+                    elif g == "fullfact":
+                        og = ops.FullFactorGenerator(params)
+                        og.init(center=st.get("center", False))
+                        og.generate()
+                except Exception:
+                    pass
+            now = semantic(params)
+            if now != snapshot and not mutated_reported:
+                mutated_reported = True
+                hist_stats["parameter_mutations"] += 1
+                ctx.mismatches.append({
+                    "what": "generate() of the %s generator changed the shared parameter list (the model's generators are functions of the declared parameters)" % g,
+                    "correspondence": "c12_parameters", "case": dict(hinfo, generator=g, bounds=[list(b) for b in bounds0]),
+                    "declared": repr(snapshot)[:600], "after_call": repr(now)[:600]})
+                # make the consequences visible to the direct oracle: every sampler once more on the shared list,
+                # judged against the ORIGINAL declared bounds
+                follow = [{"generator": "lhs", "N": 5, "seed": 1}, {"generator": "halton", "N": 5},
+                          {"generator": "random", "N": 3, "seed": 1}]
+                if 3 ** n * max(n, 1) <= 2100:
+                    follow.append({"generator": "grid", "k": 3})
+                hist_stats["followup_steps_after_mutation"] += len(follow)
+                steps.extend(follow)
+
+    def gen_history(hid):
+        n = rng.choice([1, 1, 2, 2, 3, 3, 4, 5, 6, 7, 8])
+        r = rng.random()
+        if r < 0.03:
+            n = 0
+        extreme = n <= 3 and rng.random() < 0.25
+        nmax = 8 if extreme else NMAX
+        bounds, precs = [], []
+        for _ in range(n):
+            while True:
+                b, kd = gen_bound(rng, 0.07, extreme)
+                p = rng.choice(PRECS)
+                pe = 1e-12 if not p else p
+                # number / precision must stay a finite double (the code calls round() on it)
+                if max(abs(float(b[0])), abs(float(b[1]))) / pe < 1e300:
+                    break
+            bounds.append(list(b))
+            precs.append(p)
+            bound_kinds[kd] = bound_kinds.get(kd, 0) + 1
+        rp = rng.choice(["float", "float", "float", "numpy", "tuple"])
+
+        def pick_N():
+            r = rng.random()
+            if r < 0.25:
+                return rng.choice([1, 2, 3, 4, 5])
+            if r < 0.35:
+                return min(nmax, rng.choice([NMAX, NMAX - 1, 32, 16, 27]))
+            if r < 0.38:
+                return 0
+            return rng.randint(1, nmax)
+
+        steps = []
+        for _ in range(rng.choice([3, 4, 5, 6, 7, 8, 10])):
+            r = rng.random()
+            fresh = rng.random() < 0.2
+            if r < 0.30:
+                N = pick_N()
+                inject = {}
+                if N > 0 and n > 0 and rng.random() < 0.25:
+                    for _i in range(rng.choice([1, 1, 2, 4, N])):
+                        inject["%d,%d" % (rng.randrange(N), rng.randrange(n))] = rng.choice(SPECIAL_U)
+                steps.append({"generator": "lhs", "N": N, "seed": rng.randrange(2 ** 31), "inject": inject, "fresh": fresh})
+            elif r < 0.45:
+                steps.append({"generator": "halton", "N": pick_N(), "fresh": fresh})
+            elif r < 0.60:
+                cap = 300 if extreme else GRID_CAP
+                ks = [k for k in [2, 2, 3, 3, 4, 5, 6, 7, 9, 12, 25, 40] if k ** n * max(n, 1) <= cap]
+                k = rng.choice(ks) if ks else 2
+                if rng.random() < 0.05:
+                    k = rng.choice([0, 1])
+                if k ** n * max(n, 1) <= max(cap, 2100):
+                    steps.append({"generator": "grid", "k": k, "fresh": fresh})
+            elif r < 0.88:
+                N = pick_N()
+                inject = {}
+                if N > 0 and n > 0 and rng.random() < 0.3:
+                    for _i in range(rng.choice([1, 2, 4])):
+                        inject[str(rng.randrange(N * n))] = rng.choice(SPECIAL_U)
+                steps.append({"generator": "random", "N": N, "seed": rng.randrange(2 ** 31), "inject": inject, "fresh": fresh})
+            else:
+                steps.append({"generator": rng.choice(["boxbehnken", "plackettburman", "fullfact"] if n <= 6 else ["boxbehnken", "plackettburman"]),
+                              "center": rng.random() < 0.5})
+        return {"bounds": bounds, "precisions": precs, "repr": rp, "steps": steps}
+
+    NMAX = 40
+    GRID_CAP = ctx.pick(1100, 2100)
+    # corpus first
     cdir = os.path.join(VERIF, "corpus", "C12")
     corpus_n = 0
     if os.path.isdir(cdir):
         for fn in sorted(os.listdir(cdir)):
-            if not fn.endswith(".json"):
-                continue
-            for c in json.load(open(os.path.join(cdir, fn)))["cases"]:
-                corpus_n += 1
-                b = [tuple(x) for x in c["bounds"]]
-                if c["generator"] == "lhs":
-                    inj = {tuple(int(t) for t in k.split(",")): v for k, v in c.get("inject", {}).items()}
-                    lhs_case(c["N"], b, c.get("seed", 0), inj, ["corpus"] * len(b))
-                elif c["generator"] == "halton":
-                    halton_case(c["N"], b, ["corpus"] * len(b))
-                elif c["generator"] == "grid":
-                    grid_case(c["k"], b, ["corpus"] * len(b))
-                elif c["generator"] == "random":
-                    inj = {int(k): v for k, v in c.get("inject", {}).items()}
-                    random_case(c["N"], b, c.get("precisions", [None] * len(b)), c.get("seed", 0), inj, ["corpus"] * len(b))
+            if fn.endswith(".json"):
+                for h in json.load(open(os.path.join(cdir, fn)))["histories"]:
+                    corpus_n += 1
+                    for b in h["bounds"]:
+                        bound_kinds["corpus"] = bound_kinds.get("corpus", 0) + 1
+                    run_history(h, "corpus/%s#%d" % (fn, corpus_n))
+    n_hist = ctx.pick(110, 1500)
+    for hid in range(n_hist):
+        run_history(gen_history(hid), hid)
 
-    # -------------------------------------------------------------------------------------
-    # generated cases
-    # -------------------------------------------------------------------------------------
-    n_lhs = ctx.pick(260, 4000)
-    n_halton = ctx.pick(110, 1200)
-    n_grid = ctx.pick(110, 1200)
-    n_random = ctx.pick(260, 4000)
-    NMAX = ctx.pick(40, 40)
+    ctx.coq_compare("c12", HEADER, "c12_case", "c12_obs", "c12_run", "c12_eqb", cases, expected, meta,
+                    shard=ctx.pick(16, 50))
 
-    def pick_N():
-        r = rng.random()
-        if r < 0.25:
-            return rng.choice([1, 2, 3, 4, 5])
-        if r < 0.35:
-            return rng.choice([NMAX, NMAX - 1, 32, 16, 27])
-        return rng.randint(1, NMAX)
-
-    def pick_n():
-        return rng.choice([1, 1, 2, 2, 3, 3, 4, 5, 6, 7, 8])
-
-    for _ in range(n_lhs):
-        N, n = pick_N(), pick_n()
-        r = rng.random()
-        if r < 0.03:
-            n = 0
-        elif r < 0.05:
-            N = 0
-        bounds, kinds = gen_bounds(rng, n, degenerate=0.08)
-        inject = {}
-        if N > 0 and n > 0 and rng.random() < 0.25:
-            for _ in range(rng.choice([1, 1, 2, 4, N])):
-                inject[(rng.randrange(N), rng.randrange(n))] = rng.choice(SPECIAL_U)
-        lhs_case(N, bounds, rng.randrange(2 ** 31), inject, kinds)
-
-    for _ in range(n_halton):
-        N, n = pick_N(), pick_n()
-        r = rng.random()
-        if r < 0.03:
-            n = 0
-        elif r < 0.06:
-            N = 0
-        elif r < 0.10 and ctx.thorough:
-            n = rng.choice([9, 12, 16])
-        bounds, kinds = gen_bounds(rng, n, degenerate=0.08)
-        halton_case(N, bounds, kinds)
-
-    for _ in range(n_grid):
-        n = pick_n()
-        cap = ctx.pick(2100, 5000)
-        ks = [k for k in [2, 2, 3, 3, 4, 5, 6, 7, 9, 12, 25, 40] if k ** n * max(n, 1) <= cap]
-        k = rng.choice(ks)
-        r = rng.random()
-        if r < 0.04:
-            k = rng.choice([0, 1])
-        elif r < 0.06:
-            n = 0
-        bounds, kinds = gen_bounds(rng, n, degenerate=0.08)
-        grid_case(k, bounds, kinds)
-
-    PRECS = [None, None, None, 0, 0.5, 0.25, 0.1, 1e-3, 1e-6, 1.0, 2.0, 0.3]
-    for _ in range(n_random):
-        N, n = pick_N(), pick_n()
-        r = rng.random()
-        if r < 0.03:
-            n = 0
-        elif r < 0.05:
-            N = 0
-        bounds, kinds = [], []
-        precs = []
-        for _j in range(n):
-            while True:
-                b, kd = gen_bound(rng, 0.06)
-                p = rng.choice(PRECS)
-                # number / precision must stay a finite double (the code calls round() on it)
-                pe = 1e-12 if not p else p
-                if max(abs(float(b[0])), abs(float(b[1]))) / pe < 1e300:
-                    break
-            bounds.append(b)
-            kinds.append(kd)
-            precs.append(p)
-        inject = {}
-        if N > 0 and n > 0 and rng.random() < 0.3:
-            for _ in range(rng.choice([1, 2, 4])):
-                inject[rng.randrange(N * n)] = rng.choice(SPECIAL_U)
-        random_case(N, bounds, precs, rng.randrange(2 ** 31), inject, kinds)
-
-    bad = ctx.coq_compare("c12", HEADER, "c12_case", "c12_obs", "c12_run", "c12_eqb", cases, expected, meta,
-                          shard=ctx.pick(24, 60))
-
-    # measured rounding error of the implementation against an exact evaluation (harness side, informational):
-    # the deterministic generators only, where the exact value is known without the model
-    ctx.rule = ("one case = one generate() call of LHSGenerator / HaltonGenerator / UniformGenerator / RandomGenerator; "
-                "parameter counts 0..8 (Halton up to 16 in the thorough tier), N 0..%d, grid k 0..40 with k^n * n <= cap; bounds from value "
-                "grids, ints, negative, tiny (1e-300..1e-30), huge (1e18..1e300), random and a degenerate stream (lb = ub, lb > ub); "
-                "forced extreme draws (0, 1-2^-53, exact rounding ties) in a quarter of the randomised cases; a case is non-trivial "
-                "when N >= 1 (LHS: N >= 2; grid: k >= 2) and there is at least one parameter; distinct = distinct (generator, N, bounds, seed, forced draws)") % NMAX
+    ctx.rule = ("one case = one generate() call of LHSGenerator / HaltonGenerator / UniformGenerator / RandomGenerator inside a history "
+                "of 3..10 calls on one shared parameter list (long-lived generator objects re-initialised with changing numbers, "
+                "Box-Behnken / Plackett-Burman / full-factorial generators in between, parameter dicts compared with their snapshot after "
+                "every call); parameter counts 0..8, N 0..%d, grid k 0..40 with k^n * n <= %d; bounds from value grids, ints, negative, "
+                "tiny (1e-300..1e-9), huge (1e9..1e300), random and a degenerate stream (lb = ub, lb > ub), given as floats, numpy.float64 "
+                "or tuples; forced extreme draws (0, 1-2^-53, exact rounding ties) in a quarter of the randomised calls; a case is "
+                "non-trivial when N >= 1 (LHS: N >= 2; grid: k >= 2) and there is at least one parameter; distinct = distinct "
+                "(generator, N, bounds, seed, forced draws)") % (NMAX, GRID_CAP)
     ctx.extra.update({
-        "cases_by_generator": stats, "corpus_cases": corpus_n, "bounds_kinds": bound_kinds,
+        "cases_by_generator": stats, "corpus_histories": corpus_n, "histories": hist_stats, "bounds_kinds": bound_kinds,
+        "bounds_representation": reprs,
         "N_histogram": {str(k): v for k, v in sorted(hist_N.items())},
         "parameter_count_histogram": {str(k): v for k, v in sorted(hist_n.items())},
         "near_boundary": near, "tape_lengths": tape_len, "measured_rounding_error": err_stats,
         "tolerance": "%d ulp of max(|lb|,|ub|,|ub-lb|) per entry (+ one unit of precision for random-generator entries "
-                     "whose exact quotient is within that tolerance of a rounding boundary)" % TOL_ULPS,
+                     "whose exact quotient is within 5 ulp / precision of a rounding boundary)" % TOL_ULPS,
     })
 
 
